@@ -30,6 +30,9 @@ R4   after yy_get_next_buffer() every arm of yylex / yyinput that does not mean 
      yyrestart() before the function returns or recurses.
 R5   yymore: every pointer local the matcher derives from yytext_ptr adds yy_more_len.
 R6   yymore: every comparison of a length measured from yytext_ptr (yy_c_buf_p - yytext_ptr ...) accounts for yy_more_len.
+R7   yymore: a scan position computed from the token start or from yytext_ptr counts yy_more_len exactly once when the offset is a
+     generator constant (bytes of the current run) and not at all when it is a run-time offset measured from yytext (yyless).
+R8   yyinput: the offset saved before yy_get_next_buffer() is that of the end-of-buffer byte (each character returned once).
 R2   push-back is bounded: in yyunput the store of the pushed-back character is dominated by the low-water test
      `yy_cp < yy_ch_buf + 2`; the below edge of the test shifts the text and reaches the store only through a second
      test whose below edge is fatal.
@@ -429,7 +432,8 @@ def r5(ctx, sc, lex):
     if not la.cell_loads('MORELEN'):
         c03.vac(rep, v, 'C08.R5: the scanner has no yy_more_len (no yymore(), or %array where yy_more_offset is used)')
         return 0
-    cfg = sc.prog.cfg(lex)
+    cfg, hdr_, sw_, eob_, gnb_ = lex_anchors(ctx, sc, lex)
+    anch = (sw_, eob_, hdr_)
     for fn, nm in ((lex, 'yylex'), (sc.fn('GPS'), 'yy_get_previous_state')):
         if fn is None: continue
         a = sc.fa(fn)
@@ -438,7 +442,10 @@ def r5(ctx, sc, lex):
             for call in sc.calls(lex, 'GNB'):
                 sw, am = c03.gnb_arms(sc, lex, call, None)
                 arms += list(am.items())
+        ts = token_start_locals(sc, lex) if fn is lex else ()
+        spl = c04.scan_position_locals(sc, lex) if fn is lex else set()
         for L in sorted(a.locals):
+            if L in spl: continue          # scan positions: R7 does the exact accounting (yyless measures from yytext)
             for st in a.local_stores(L):
                 sl = flow.value_slice(fn, st.ops[0])
                 roles = {cell_role(a.loc(d.ops[0])) for d in sl if d.op == 'load'}
@@ -446,14 +453,20 @@ def r5(ctx, sc, lex):
                 n += 1
                 site = 'scan-start'
                 if fn is lex:
-                    site = 'end-of-buffer-arm'
+                    site = _site(sc, lex, st, *anch)
                     for c, blk in arms:
                         if cfg.dominates(blk, st.blk): site = 'refill-arm-%d' % c
                 key = 'C08.R5:%s:%s:run-start-from-yytext_ptr#%s' % (skel(v), nm, site)
-                if 'MORELEN' in roles:
+                try:
+                    base, m, const, runtime = linear_position(sc, fn, st.ops[0], ts)
+                except _NotLinear:
+                    base = None
+                good = base == 'TEXT' and m == 1 and const == 0 and not runtime
+                if good:
                     rep.ok('C08.R5', '%s %s: %s = yytext_ptr + yy_more_len @%s' % (v.name, nm, L, st.line))
                 else:
-                    rep.fail('C08.R5', key, where(st), '%s derives the local %s from yytext_ptr without adding yy_more_len (YY_MORE_ADJ): after yymore() the run would start inside the kept text [variant %s]' % (nm, L, v.name), variant=v.describe())
+                    how = 'not as yytext_ptr + yy_more_len' if base != 'TEXT' else 'as yytext_ptr %+d*yy_more_len%s%s' % (m, ' %+d' % const if const else '', ' + a run-time offset' if runtime else '')
+                    rep.fail('C08.R5', key, where(st), '%s derives the local %s (start of the run) from yytext_ptr %s; the run starts exactly yy_more_len (YY_MORE_ADJ) bytes after yytext_ptr: after yymore() it would start inside the kept text [variant %s]' % (nm, L, how, v.name), variant=v.describe())
     return n
 
 # ---------------------------------------------------------------- R6
@@ -495,13 +508,134 @@ def r6(ctx, sc, lex):
         n = 1
     return n
 
+# ---------------------------------------------------------------- R7
+
+def token_start_locals(sc, lex):
+    """pointer locals of yylex whose loaded value is stored, as it is, to yytext_ptr - directly (YY_DO_BEFORE_ACTION:
+    yytext_ptr = yy_bp) or by a callee that stores the corresponding parameter to yytext_ptr (yy_do_before_action)"""
+    a = sc.fa(lex); out = set()
+    def local_of(val):
+        d = lex.def_of(val)
+        if d is not None and d.op == 'load':
+            l = a.loc(d.ops[0])
+            if l[0] == 'local' and l[1] in a.locals: return l[1]
+        return None
+    for st in a.cell_stores('TEXT'):
+        L = local_of(st.ops[0])
+        if L: out.add(L)
+    for c in lex.ins:
+        if c.op not in ('call', 'invoke'): continue
+        g = sc.callee_fn(c, lex)
+        if g is None: continue
+        ga = None
+        for k, arg in enumerate(c.ops):
+            L = local_of(arg)
+            if not L or k >= len(g.params) or not g.params[k][1]: continue
+            if ga is None: ga = sc.fa(g)
+            pl = g.params[k][1] + '.addr'
+            for st in ga.cell_stores('TEXT'):
+                d = g.def_of(st.ops[0])
+                if d is not None and d.op == 'load' and ga.loc(d.ops[0]) == ('local', pl): out.add(L)
+    return out
+
+class _NotLinear(Exception):
+    pass
+
+def linear_position(sc, fn, val, ts):
+    """pointer value as base + m * yy_more_len + constant + run-time terms.  Returns (base, m, const, runtime) with base
+    'RUN' (a token-start local: the start of the current run), 'TEXT' (yytext_ptr) or None (anything else)."""
+    a = sc.fa(fn)
+    def integer(v, sign, acc, depth=0):
+        if depth > 25: raise _NotLinear()
+        if v[0] == 'int': acc[1] += sign * v[1]; return
+        d = fn.def_of(v)
+        if d is None: acc[2] = True; return
+        if d.op in ('sext', 'zext', 'trunc'): integer(d.ops[0], sign, acc, depth + 1); return
+        if d.op == 'add': integer(d.ops[0], sign, acc, depth + 1); integer(d.ops[1], sign, acc, depth + 1); return
+        if d.op == 'sub': integer(d.ops[0], sign, acc, depth + 1); integer(d.ops[1], -sign, acc, depth + 1); return
+        if d.op == 'load' and cell_role(a.loc(d.ops[0])) == 'MORELEN': acc[0] += sign; return
+        acc[2] = True
+    acc = [0, 0, False]
+    v = val; depth = 0
+    while depth < 25:
+        depth += 1
+        d = fn.def_of(v)
+        if d is None: return (None, 0, 0, True)
+        if d.op == 'bitcast': v = d.ops[0]; continue
+        if d.op == 'getelementptr' and len(d.ops) == 2:
+            integer(d.ops[1], 1, acc); v = d.ops[0]; continue
+        if d.op == 'load':
+            l = a.loc(d.ops[0])
+            if l[0] == 'local' and l[1] in ts: return ('RUN', acc[0], acc[1], acc[2])
+            if cell_role(l) == 'TEXT' and d.ty is not None and d.ty.k == 'ptr': return ('TEXT', acc[0], acc[1], acc[2])
+        return (None, 0, 0, True)
+    return (None, 0, 0, True)
+
+def r7(ctx, sc, lex):
+    """yymore (pointer yytext): yytext_ptr is the start of yytext including the text kept by yymore(); the run the DFA
+    matched starts yy_more_len bytes later, at the token-start local (yy_bp).  Every scan position that yylex or yyinput
+    computes from one of the two starts is base + m * yy_more_len + offset; counting the run start as yytext_ptr +
+    yy_more_len gives the total weight M of yy_more_len.  An offset that is a compile-time constant was emitted by the
+    generator and counts bytes of the current run (the head of a fixed-trailing-context rule, 0 for "start of the run"):
+    M must be 1.  An offset computed at run time (the argument of yyless, a length saved from yy_cp - yytext_ptr) is
+    measured from yytext: M must be 0.  Anything else applies the yymore adjustment twice or not at all."""
+    rep = ctx.rep; v = sc.v; n = 0
+    la = sc.fa(lex)
+    if not la.cell_loads('MORELEN'):
+        c03.vac(rep, v, 'C08.R7: the scanner has no yy_more_len (no yymore(), or %array where yy_more_offset is used)')
+        return 0
+    ts = token_start_locals(sc, lex)
+    if not ts: rep.broken('%s: no pointer local of %s is stored to yytext_ptr (token-start local not found)' % (v.name, lex.name))
+    cfg, hdr, sw, eob, gnb = lex_anchors(ctx, sc, lex)
+    sp = c04.scan_position_locals(sc, lex)
+    for fn in [lex] + sc.fns('INPUT'):
+        a = sc.fa(fn)
+        seen = set()
+        stores = list(a.cell_stores('CBUFP'))
+        if fn is lex:
+            for L in sp: stores += a.local_stores(L)
+        for st in stores:
+            if st.ops[0][0] != 'reg' or st.ops[0][1] in seen: continue
+            seen.add(st.ops[0][1])
+            try:
+                base, m, const, runtime = linear_position(sc, fn, st.ops[0], ts if fn is lex else ())
+            except _NotLinear:
+                continue
+            if base is None: continue
+            n += 1
+            M = m + (1 if base == 'RUN' else 0)
+            want = 0 if runtime else 1
+            if fn is lex:
+                site = _site(sc, lex, st, sw, eob, hdr)
+                if site == 'in-an-action': site = 'yyless' if runtime else 'fixed-trailing-context'
+            else: site = 'refill'
+            key = 'C08.R7:%s:%s:scan-position-from-token-start#%s' % (skel(v), norm(fn.name), site)
+            what = '%s %+d*yy_more_len + %s' % ('yy_bp' if base == 'RUN' else 'yytext_ptr', m, 'a run-time offset' if runtime else str(const))
+            if M == want:
+                rep.ok('C08.R7', '%s %s: scan position@%s = %s (net weight of yy_more_len relative to yytext_ptr %d)' % (v.name, norm(fn.name), st.line, what, M))
+            else:
+                rep.fail('C08.R7', key, where(st), '%s sets the scan position (line %s) to %s: relative to yytext_ptr the text kept by yymore() is counted %d time(s), but %s [variant %s]' % (
+                    norm(fn.name), st.line, what, M,
+                    'a run-time offset (the argument of yyless, a saved length) is measured from yytext: it must not be counted' if runtime else 'a constant offset counts bytes of the current run, which starts at yytext_ptr + yy_more_len: it must be counted once',
+                    v.name), variant=v.describe())
+    return n
+
+# ---------------------------------------------------------------- R8
+
+def r8(ctx, sc, lex):
+    """input() returns each character exactly once: see c03.r5 (shared symbolic evaluation); here the obligation is that
+    the offset saved before the refill is that of the end-of-buffer byte itself"""
+    gnb = sc.fn('GNB')
+    consts, eof = c03.eof_code(sc, lex, gnb)
+    return c03.r5(ctx, sc, consts, eof, rule='C08.R8')
+
 # ---------------------------------------------------------------- driver
 
 def run(ctx):
     rep = ctx.rep
     vs = [v for v in ctx.variants() if c03.usable(v)]
     rep.require(len(vs) >= 60, 'only %d scanner variants compiled to IR' % len(vs))
-    tot = {'R1a': 0, 'R1b': 0, 'R1c': 0, 'R1d': 0, 'R2': 0, 'R4': 0, 'R5': 0, 'R6': 0}
+    tot = {'R1a': 0, 'R1b': 0, 'R1c': 0, 'R1d': 0, 'R2': 0, 'R4': 0, 'R5': 0, 'R6': 0, 'R7': 0, 'R8': 0, 'yymore': 0}
     backends = set()
     for v in vs:
         sc = Scanner(v)
@@ -515,21 +649,27 @@ def run(ctx):
         tot['R4'] += r4(ctx, sc, lex)
         tot['R5'] += r5(ctx, sc, lex)
         tot['R6'] += r6(ctx, sc, lex)
+        tot['R7'] += r7(ctx, sc, lex)
+        tot['R8'] += r8(ctx, sc, lex)
+        if sc.fa(lex).cell_loads('MORELEN'): tot['yymore'] += 1
         k = r2(ctx, sc)
         if k == 0: c03.vac(rep, v, 'C08.R2: no yyunput in this variant (noyyunput)')
         tot['R2'] += k
     rep.require(backends == {'nr', 'r', 'cxx', 'c99', 'go'}, 'back ends analysed: %s' % sorted(backends))
     rep.setcount('variants_analysed', len(vs))
     for k, n in tot.items(): rep.setcount('instances_' + k, n)
-    rep.require(tot['R1a'] >= 9 * len(vs), 'C08.R1(a) matched %d instances, at least 9 per variant expected (3 + one per restore + one per take in yylex)' % tot['R1a'])
-    rep.require(tot['R1b'] >= 8 * len(vs) - 16, 'C08.R1(b) matched %d instances, 8..10 per variant expected (2 per editing entry point)' % tot['R1b'])
-    rep.require(tot['R1d'] >= 6 * len(vs), 'C08.R1(d) matched %d takes, at least 6 per variant expected' % tot['R1d'])
-    rep.require(tot['R1c'] >= 3 * len(vs), 'C08.R1(c) matched %d instances, 3 per variant expected' % tot['R1c'])
-    rep.require(tot['R2'] >= len(vs) - 4, 'C08.R2 matched %d instances, one per variant with yyunput expected' % tot['R2'])
-    rep.require(tot['R4'] >= 3 * len(vs), 'C08.R4 matched %d instances, 2 arms in yylex + 2 in yyinput per variant expected' % tot['R4'])
-    rep.require(tot['R5'] >= 4 * (len(vs) // 3), 'C08.R5 matched %d instances, 4 per yymore variant expected' % tot['R5'])
+    c03.count_guard(rep, tot['R1a'] >= 9 * len(vs), 'C08.R1(a) matched %d instances, at least 9 per variant expected (3 + one per restore + one per take in yylex)' % tot['R1a'])
+    c03.count_guard(rep, tot['R1b'] >= 8 * len(vs) - 16, 'C08.R1(b) matched %d instances, 8..10 per variant expected (2 per editing entry point)' % tot['R1b'])
+    c03.count_guard(rep, tot['R1d'] >= 6 * len(vs), 'C08.R1(d) matched %d takes, at least 6 per variant expected' % tot['R1d'])
+    c03.count_guard(rep, tot['R1c'] >= 3 * len(vs), 'C08.R1(c) matched %d instances, 3 per variant expected' % tot['R1c'])
+    c03.count_guard(rep, tot['R2'] >= len(vs) - 4, 'C08.R2 matched %d instances, one per variant with yyunput expected' % tot['R2'])
+    c03.count_guard(rep, tot['R4'] >= 3 * len(vs), 'C08.R4 matched %d instances, 2 arms in yylex + 2 in yyinput per variant expected' % tot['R4'])
     rep.floor('C08.R1', 1, 'see instances_R1a/R1b/R1c'); rep.floor('C08.R2', 1, 'see instances_R2')
-    rep.require(tot['R6'] * 4 >= tot['R5'], 'C08.R6 matched %d instances, one per yymore variant expected (R5 has 4 per yymore variant: %d)' % (tot['R6'], tot['R5']))
+    c03.count_guard(rep, tot['R6'] >= tot['yymore'], 'C08.R6 matched %d instances, one per yymore variant (%d) expected' % (tot['R6'], tot['yymore']))
+    c03.count_guard(rep, tot['R5'] >= 4 * tot['yymore'], 'C08.R5 matched %d instances, 4 per yymore variant (%d) expected' % (tot['R5'], tot['yymore']))
+    c03.count_guard(rep, tot['R7'] >= 4 * tot['yymore'], 'C08.R7 matched %d instances, at least 4 per yymore variant (%d) expected' % (tot['R7'], tot['yymore']))
+    c03.count_guard(rep, tot['R8'] >= len(vs) - 8, 'C08.R8 matched %d instances, one per variant with yyinput expected' % tot['R8'])
+    rep.floor('C08.R7', 1, 'see instances_R7'); rep.floor('C08.R8', 1, 'see instances_R8')
     rep.floor('C08.R4', 1, 'see instances_R4'); rep.floor('C08.R5', 1, 'see instances_R5'); rep.floor('C08.R6', 1, 'see instances_R6')
     rep.undecided += ['yymore length arithmetic (yy_more_len / yy_more_offset) and "consumed exactly once"',
                       'the state after the user\'s yywrap() and on the end-of-file arm of yy_get_next_buffer (a path-insensitive join cannot see it)',
